@@ -559,10 +559,10 @@ impl Range {
     }
 
     fn from_min_max(min: f64, max: f64) -> Result<Self> {
-        let range = max - min;
-        if range < 0.0 {
+        if min.is_nan() || max.is_nan() || max < min {
             Error::invalid(format!("Found invalid range: min={min}, max={max}"))?;
         }
+        let range = max - min;
         let inv_range = 1.0 / range;
         Ok(Self {
             min,
@@ -666,7 +666,12 @@ impl Range {
     fn normalize(&self, value: f64) -> f32 {
         let clamped = value.clamp(self.min, self.max);
         let normalized = (clamped - self.min) * self.inv_range;
-        normalized as f32
+        if normalized.is_nan() {
+            // Empty or infinite ranges cannot be normalized and yield zero
+            0.0
+        } else {
+            normalized.clamp(0.0, 1.0) as f32
+        }
     }
 }
 
